@@ -146,7 +146,16 @@ def _id_cmp_zip_form(ctx, facts, body, it):
     if not (res[EQ] is False and res[LT] is True and res[GT] is True):
         errs.append('the search does not stop exactly at the first pair that differs (Eq->%s Lt->%s Gt->%s)' % (res[EQ], res[LT], res[GT]))
     # what is returned: the found ordering as it is (or reversed when the pairs are compared other-with-self), else the length rule
-    alts = [drop_lv(a) for a in phi_alts(drop_lv(it.ret))]
+    r0 = drop_lv(it.ret)
+    if is_call(r0, ('unwrap_or_else', 'unwrap_or')) and len(r0[2]) == 2 and drop_lv(r0[2][0]) == st:
+        # `find(..).unwrap_or_else(|| tie)`: the found ordering as it is, else the tie-break
+        tie = r0[2][1]
+        if tie[0] == 'closure':
+            tcb = facts.cb(tie[1])
+            tie = subst(interp(facts, tcb).ret, {('upvar', k): v for k, v in enumerate(tie[2])}) if tcb is not None else tie
+        alts = [('field', st, 'Some.0'), drop_lv(tie)]
+    else:
+        alts = [drop_lv(a) for a in phi_alts(r0)]
     found_alt = [a for a in alts if any(x is st or x == st for x in subterms(a))]
     tie_alt = [a for a in alts if a not in found_alt]
     for a in found_alt:
